@@ -545,7 +545,12 @@ theorem cells_schedule_independent (cells : List (List α)) (outs : List (List (
   exact seq_eq_runCells km spec lay params inputs cells outs ss os h
 
 /-- **T3 `cells_any_interleaving` (through T2).** Every interleaving of the cells' tasks — every schedule of the
-goroutines at the granularity of the footprints — ends in the memory image of `runCells`' result. -/
+goroutines at the granularity of the footprints — ends in the memory image of `runCells`' result.
+Granularity: one atomic step per cell; `refined_cells_any_interleaving` (below) removes that.
+Row width: the statement is about the list-level model, whose `overwrite` TRUNCATES a state vector longer than the cell's
+row; the code copies on into the next cell's row there (overlapping footprints, schedule-dependent states: known findings
+KF-C05-GR4J/Lag-InitialiseStates-row-width). Model = code needs `r.states.length ≤ st.length` for every cell — listed in
+the check's `assumptions`. -/
 theorem cells_any_interleaving (cells : List (List α)) (outs : List (List (List α))) (ss : List (List α))
     (os : List (List (List α))) (h : runCells km spec lay params inputs 0 cells outs = .ok (ss, os))
     (sched : Sched CAddr (CVal α)) (hi : Interleaving (cellTasks km spec lay params inputs cells.length) sched) :
@@ -605,6 +610,128 @@ theorem pool_cells_any_interleaving (cells : List (List α)) (outs : List (List 
   exact cells_schedule_independent km spec lay params inputs cells outs ss os h groups.flatten hp
 
 end PoolCells
+
+/-! ### T3, refined granularity: a cell's goroutine as MANY steps -/
+
+section RefinedCells
+open OW OW.Sim OW.Sim.CellTasks
+
+variable {α : Type} [Num α]
+variable (km : KModel α) (spec : ParamSpec) (lay : List (Nat × Nat)) (params : List (List α))
+  (inputs : List (List (List α)))
+
+/-- running task lists one after the other, when each task as a whole acts like one given step -/
+theorem runList_flatten_eq {Addr Val : Type} :
+    ∀ (tasks : List (Task Addr Val)) (fs : List (Step Addr Val)), tasks.length = fs.length →
+      (∀ (i : Nat) (t : Task Addr Val) (f : Step Addr Val), tasks[i]? = some t → fs[i]? = some f → ∀ m, runList t m = f.run m) →
+      ∀ m, runList tasks.flatten m = runList fs m
+  | [], [], _, _, _ => rfl
+  | [], _ :: _, h, _, _ => by simp at h
+  | _ :: _, [], h, _, _ => by simp at h
+  | t :: ts, f :: fs, hl, hrun, m => by
+    rw [List.flatten_cons, runList_append, runList_cons, hrun 0 t f rfl rfl m]
+    exact runList_flatten_eq ts fs (by simpa using hl) (fun i t' f' ht hf => hrun (i + 1) t' f' (by simpa using ht) (by simpa using hf)) _
+
+/-- **`refined_cells_any_interleaving`.** The goroutine of cell `i` need not be ONE atomic step (`cellStepM`, the
+granularity of `cells_any_interleaving`): take ANY splitting of it into a list of atomic steps `tasks[i]` — element reads
+of the state row, kernel arithmetic, element writes into the output rows, in any number — such that
+* every step's declared footprint (reads and writes) lies inside the cell's own rows `{st i, out i}`, and
+* run one after the other WITHOUT interference, the steps of the task have the effect of `cellStepM … i`.
+Then EVERY interleaving of the steps of all cells (every schedule preserving each goroutine's own order) ends in the
+memory image of `runCells`' result, the sequential cell-by-cell run. (A corollary of `disjoint_interleaving`: the
+atomicity of the per-cell step in `CellTasks` is not needed for schedule independence.) -/
+theorem refined_cells_any_interleaving (cells : List (List α)) (outs : List (List (List α))) (ss : List (List α))
+    (os : List (List (List α))) (h : runCells km spec lay params inputs 0 cells outs = .ok (ss, os))
+    (tasks : List (Task CAddr (CVal α))) (hlen : tasks.length = cells.length)
+    (hfoot : ∀ (i : Nat) (t : Task CAddr (CVal α)), tasks[i]? = some t → ∀ s : Step CAddr (CVal α), s ∈ t →
+      ∀ a : CAddr, a ∈ s.foot → a = CAddr.st i ∨ a = CAddr.out i)
+    (hseq : ∀ (i : Nat) (t : Task CAddr (CVal α)), tasks[i]? = some t →
+      ∀ m, runList t m = (cellStepM km spec lay params inputs i).run m)
+    (sched : Sched CAddr (CVal α)) (hi : Interleaving tasks sched) :
+    runSched sched (memOf cells outs) = memOf ss os := by
+  have hd : TasksDisjoint tasks := by
+    intro i j ti tj hti htj hij s hs t ht a ha ha'
+    have h1 := hfoot i ti hti s hs a (by simp [Step.foot, ha])
+    have h2 := hfoot j tj htj t ht a ha'
+    rcases h1 with e | e <;> rcases h2 with e' | e' <;> rw [e] at e' <;> cases e' <;> exact hij rfl
+  rw [disjoint_interleaving tasks hd sched hi]
+  unfold seqRun
+  rw [runList_flatten_eq tasks ((List.range cells.length).map (cellStepM km spec lay params inputs))
+    (by simp [hlen]) ?_]
+  · exact seq_eq_runCells km spec lay params inputs cells outs ss os h
+  · intro i t f ht hf m
+    rw [List.getElem?_map] at hf
+    cases hr : (List.range cells.length)[i]? with
+    | none => simp [hr] at hf
+    | some k =>
+      have hk : k = i := by
+        obtain ⟨_, e⟩ := List.getElem?_eq_some_iff.mp hr
+        simpa using e.symm
+      subst hk
+      simp only [hr, Option.map_some, Option.some.injEq] at hf
+      subst hf
+      exact hseq k t ht m
+
+/-- non-vacuity: the one-step tasks of `CellTasks` meet the hypotheses (so the theorem generalises
+`cells_any_interleaving`) … -/
+example (cells : List (List α)) (outs : List (List (List α))) (ss : List (List α))
+    (os : List (List (List α))) (h : runCells km spec lay params inputs 0 cells outs = .ok (ss, os))
+    (sched : Sched CAddr (CVal α)) (hi : Interleaving (cellTasks km spec lay params inputs cells.length) sched) :
+    runSched sched (memOf cells outs) = memOf ss os :=
+  refined_cells_any_interleaving km spec lay params inputs cells outs ss os h _ (by simp [cellTasks])
+    (fun i t ht s hs a ha => by
+      rw [cellTasks_get km spec lay params inputs _ i t ht] at hs
+      simp only [List.mem_singleton] at hs
+      subst hs
+      simp [cellStepM, Step.foot] at ha
+      rcases ha with e | e | e | e <;> simp [e])
+    (fun i t ht m => by
+      rw [cellTasks_get km spec lay params inputs _ i t ht]; rfl)
+    sched hi
+
+/-- … and so does a genuinely split task: the cell's step followed by a second step that re-reads and rewrites the
+cell's own state row unchanged (two atomic steps per goroutine) -/
+def touchSt (i : Nat) : Step CAddr (CVal α) :=
+  Step.ofFun [.st i] [.st i] (fun m a => m a) (fun m m' h a ha => h a (by simp [ha]))
+
+example (cells : List (List α)) (outs : List (List (List α))) (ss : List (List α))
+    (os : List (List (List α))) (h : runCells km spec lay params inputs 0 cells outs = .ok (ss, os))
+    (sched : Sched CAddr (CVal α))
+    (hi : Interleaving ((List.range cells.length).map fun i => [cellStepM km spec lay params inputs i, touchSt i]) sched) :
+    runSched sched (memOf cells outs) = memOf ss os :=
+  refined_cells_any_interleaving km spec lay params inputs cells outs ss os h _ (by simp)
+    (fun i t ht s hs a ha => by
+      rw [List.getElem?_map] at ht
+      cases hr : (List.range cells.length)[i]? with
+      | none => simp [hr] at ht
+      | some k =>
+        have hk : k = i := by
+          obtain ⟨_, e⟩ := List.getElem?_eq_some_iff.mp hr
+          simpa using e.symm
+        subst hk
+        simp only [hr, Option.map_some, Option.some.injEq] at ht
+        subst ht
+        simp only [List.mem_cons, List.mem_singleton, List.not_mem_nil, or_false] at hs
+        rcases hs with e | e <;> subst e <;> simp [cellStepM, touchSt, Step.ofFun, Step.foot] at ha
+        · rcases ha with e | e | e | e <;> simp [e]
+        · simp [ha])
+    (fun i t ht m => by
+      rw [List.getElem?_map] at ht
+      cases hr : (List.range cells.length)[i]? with
+      | none => simp [hr] at ht
+      | some k =>
+        have hk : k = i := by
+          obtain ⟨_, e⟩ := List.getElem?_eq_some_iff.mp hr
+          simpa using e.symm
+        subst hk
+        simp only [hr, Option.map_some, Option.some.injEq] at ht
+        subst ht
+        simp only [runList_cons, runList_nil]
+        funext a
+        simp [touchSt, Step.ofFun])
+    sched hi
+
+end RefinedCells
 
 /-! ### T4 — the `doneChan` join: no sender blocked forever, the parent returns only after all tasks finished -/
 
